@@ -65,14 +65,20 @@ def annotate_decides(recs):
         if v.startswith("error"):
             r["decides"] = {"error": v}
         else:
-            n, ok_ = v.split()
-            r["decides"] = {"n": int(n), "ok": ok_ == "1"}
+            n, ok_, cok = v.split()
+            r["decides"] = {"n": int(n), "ok": ok_ == "1", "complete": cok == "1"}
     return recs
 
 
 def ok_decides(r):
     d = r.get("decides")
     return d is None or ("error" not in d and d["ok"])
+
+
+def ok_complete(r):
+    """at every call of decide no clause allocated so far was falsified or unit (extracted prop_complete)"""
+    d = r.get("decides")
+    return d is None or "error" in d or d["complete"]
 
 
 def annotate(recs):
